@@ -230,7 +230,7 @@ theorem frame0_setReg {σ σ' : State} (F : Frame0 σ σ') {n : Fin 31} (hn : n 
     Frame0 σ (σ'.setReg n v) := by
   refine ⟨F.sp, F.heap, ?_, fun a => F.slots a⟩
   intro m h1 h2
-  rw [setReg_reg, if_neg (by rcases hn with rfl | rfl <;> [exact Ne.symm h1; exact Ne.symm h2])]
+  rw [setReg_reg, if_neg (by rcases hn with rfl | rfl <;> first | exact Ne.symm h1 | exact Ne.symm h2)]
   exact F.regs m h1 h2
 
 /-- the machine word of the tag of the `pos`-th xtor -/
@@ -339,7 +339,8 @@ theorem switch_nav_a64 {hooks : Bool} {types : List TypeDecl} {Γ' : Ctx} {b : B
         by rw [hcsT]; simp [List.append_assoc], hpc⟩
       (execCodes_comments c c0 σ hc0c) out
     -- the table of the laid-out program
-    set kt := (cs1 ++ c0 ++ (Code.ADR TEMP lbl :: Bc) ++ [Code.BR TEMP]).length with hkt
+    let kt := (cs1 ++ c0 ++ (Code.ADR TEMP lbl :: Bc) ++ [Code.BR TEMP]).length
+    have hkt : kt = (cs1 ++ c0 ++ (Code.ADR TEMP lbl :: Bc) ++ [Code.BR TEMP]).length := rfl
     have hiL : cs[kt]? = some (Code.LAB lbl) := by
       rw [hcsT, List.append_assoc]; exact getElem?_mid _ _ _
     have htabcs : ∀ j, j < table.length → ∃ code, cs[kt + 1 + j]? = some code ∧ code.isMeta = false := by
